@@ -1,16 +1,21 @@
 /-
   C15 model driver (acceptor mode). One request line = one observed execution:
-    (run fixed|unfixed <label>*)
+    (run fixed|unfixed|ctx <label>*)      -- fixed = api.go (`apiGo`); ctx = api.go with a `<-ctx.Done()`
+                                          -- alternative in the Go task's select (`apiGoCtx`, Cancel.lean)
   labels: (go t [dep]) (batch k item p [dep]) (chain t (p*)) (fin t val err) (idle) (flush (k (val err)*)*)
           (recvb t) (drain t) (iret) (ret) (release t) (start)            -- err is 0|1
+          (cancel)        the request's context is cancelled (Cancel.lean)
+          (ctxrelease t)  a parked task leaves through `<-ctx.Done()` (never enabled in `apiGo`)
   reply:  (ok (next n) (phase ph) (exec e) (running t*) (blocked t*) (pending (k item*)*)
-              (calls (wave k (item*) (dest*))*) (delivered (p val err)*) (orphaned p*) (destfull b) (crashed b))
+              (calls (wave k (item*) (dest*))*) (delivered (p val err)*) (orphaned p*) (destfull b) (crashed b)
+              (cancelled b))
         | (reject i)        -- label number i (0-based) is not a step of the model
         | bad-op
 -/
 import ApiFu.Common.Sexp
 import ApiFu.Common.Loop
 import ApiFu.C15.Model
+import ApiFu.C15.Cancel
 
 open ApiFu ApiFu.C15
 
@@ -45,12 +50,26 @@ def label? : Sexp → Option Label
   | Sexp.list [Sexp.atom "start"] => some .start
   | _ => none
 
+def clabel? : Sexp → Option CLabel
+  | Sexp.list [Sexp.atom "cancel"] => some .cancel
+  | Sexp.list [Sexp.atom "ctxrelease", t] => do pure (.ctxRelease (← t.nat?))
+  | x => (label? x).map .base
+
+/-- `crun` with the index of the first rejected label. -/
+def crunFrom (cc : CCfg) : CSt → List CLabel → Nat → Except Nat CSt
+  | cs, [], _ => .ok cs
+  | cs, l :: ls, i =>
+    match cstep cc cs l with
+    | none => .error i
+    | some cs' => crunFrom cc cs' ls (i + 1)
+
 def phaseName : Phase → String
   | .exec => "exec" | .top => "top" | .drain => "drain" | .returned => "returned"
 
 def nats (xs : List Nat) : List Sexp := xs.map Sexp.ofNat
 
-def render (s : St) : String :=
+def render (cs : CSt) : String :=
+  let s := cs.s
   toString (Sexp.node "ok" [
     Sexp.node "next" [Sexp.ofNat s.next],
     Sexp.node "phase" [Sexp.atom (phaseName s.phase)],
@@ -64,16 +83,18 @@ def render (s : St) : String :=
       Sexp.list [Sexp.ofNat x.1, Sexp.ofNat x.2.val, Sexp.ofNat (if x.2.err then 1 else 0)]),
     Sexp.node "orphaned" (nats s.orphaned),
     Sexp.node "destfull" [Sexp.ofBool s.destFull],
-    Sexp.node "crashed" [Sexp.ofBool s.crashed]])
+    Sexp.node "crashed" [Sexp.ofBool s.crashed],
+    Sexp.node "cancelled" [Sexp.ofBool cs.cancelled]])
 
 def handle (line : String) : String :=
   match Sexp.parse line with
   | some (Sexp.list (Sexp.atom "run" :: Sexp.atom mode :: ls)) =>
-    if mode != "fixed" && mode != "unfixed" then "bad-op" else
-    match ls.mapM label? with
+    if mode != "fixed" && mode != "unfixed" && mode != "ctx" then "bad-op" else
+    let cc : CCfg := if mode == "fixed" then apiGo else if mode == "ctx" then apiGoCtx else ⟨[.handoff]⟩
+    match ls.mapM clabel? with
     | none => "bad-op"
     | some labels =>
-      match runFrom ⟨mode == "fixed"⟩ init labels 0 with
+      match crunFrom cc cinit labels 0 with
       | .ok s => render s
       | .error i => toString (Sexp.node "reject" [Sexp.ofNat i])
   | _ => "bad-op"
